@@ -51,6 +51,14 @@ CLAIMED["C13"] = {
     "technique": "panic-edge census + early-exit chain extraction + value-term matching of the returned slices",
 }
 
+CLAIMED["C15"] = {
+    "category": "other",
+    "text": "Decided on the polymorphic MIR of DynSizedStructure<H>::cast<T> - hence for every header and every user-defined sized or dynamically sized T - and re-decided on all 31 instantiations: the BASE_SIZE >= header guard dominates the unsafe reference creation; address = self, metadata = T::dst_len(self.header()); the size_of_val equality is a fact at the return (must-pass-through, failing edge diverges); the compared reference is the one returned and is only measured before the comparison; get_tag reaches typed references only through cast. With the DST layout rule this gives size_of_val(result) = round8(tag size) or a panic.",
+    "design_ref": "DESIGN.md §4 C15",
+    "note": TB + "; the user type truthfully declares BASE_SIZE/dst_len (hypothesis); type-level restrictions (K6) are compile-fail witnesses in the thorough tier",
+    "technique": "guard-dominance and must-pass-through facts on polymorphic + monomorphic MIR, value-term identity of compared and returned reference",
+}
+
 PENDING = "check not yet built in this session (machinery under construction; see DESIGN.md §9 build order) - not claimed until its premises run, pass on the repaired tree and fire on seeded breaks"
 NOT_APPLICABLE = {("C%02d" % i): PENDING for i in range(1, 21)}
 
